@@ -764,9 +764,16 @@ def ob_generic_reference():
             if bad:
                 spec = ["R"]
                 specs = ([{"id": "R", "type": "Parameter", "tensor": [1.0]}] if registered else []) + spec
+                confirmed, replay = None, None
+                if not registered and "exc" not in run.calls[0]:
+                    replay = {"kind": "custom", "contract": "C13", "func": "replay_spec", "args": {"specs": specs, "expect": "reject"}}
+                    try:
+                        confirmed = not replay_spec(replay["args"])[0]
+                    except Exception as e:
+                        jh.reraise_harness(e)
                 raise Refuted("generic reference (registered=%s): %s" % (registered, bad[0][1]),
                               witness={"data": "R", "registered": registered, "observed": [m for _, m in bad], "specs": specs},
-                              replay=None, confirmed=None)
+                              replay=replay, confirmed=confirmed)
             fp = footprint_violations(run, {("get", "R")}, allowed_str={("__contains__", ("{",))})
             if fp:
                 raise Undecided("reference case leaves the expected footprint: %s" % fp[:3])
